@@ -270,6 +270,28 @@ Theorem C02_unlisted_class_leaves_nothing : forall cfg pcn parent inp s x pc' dc
   forall pc k, pc' = Some pc -> child_key pcn dch' k -> holds_key pc k = false.
 Proof. exact unlisted_class_leaves_nothing. Qed.
 
+(** Candidate finding (replayed on the real code with c02 --revstop 1): "the requests of a given-up class are always
+    all performed" is refuted - the exchange ends at the first refused request. A class in RollNew whose new key the
+    parent has already revoked: the request for the current key is never sent and its certificate stays. Restriction:
+    all are performed when the parent still counts every certified key of the class as in use. *)
+Theorem C02_revocations_performed_refuted : ~ revocations_performed_full.
+Proof. exact revocations_performed_refuted. Qed.
+
+Theorem C02_revocation_stops_at_refused_request :
+  class_revocations rs_given_up = [(0, 8); (0, 7)]
+  /\ revoke_all rs_parent 4 (class_revocations rs_given_up) = Refused
+  /\ (exists dc, aget 0 (da_classes rs_parent) = Some dc /\ holds_key dc 7 = true)
+  /\ (exists s' dc', revoke_all rs_parent 4 [(0, 7)] = Done s' /\ aget 0 (da_classes s') = Some dc' /\ holds_key dc' 7 = false).
+Proof. exact revocation_stops_at_refused_request. Qed.
+
+Theorem C02_revocations_performed_when_in_use : forall s h dch x,
+  aget h (da_children s) = Some dch ->
+  amem (name_in_parent (dc_ch dch) (d_prcn x)) (da_classes s) = true ->
+  NoDup (ks_certified (d_keys x)) ->
+  (forall k, In k (ks_certified (d_keys x)) -> ch_is_issued (dc_ch dch) k = true) ->
+  exists s', revoke_all s h (class_revocations x) = Done s'.
+Proof. exact revocations_performed_when_in_use. Qed.
+
 Print Assumptions C02_issued_exact.
 Print Assumptions C02_issued_exact_no_limit.
 Print Assumptions C02_issued_within.
@@ -304,3 +326,6 @@ Print Assumptions C02_revoke_clears.
 Print Assumptions C02_dropped_class_revoked.
 Print Assumptions C02_revocations_under_unknown_name_keep.
 Print Assumptions C02_unlisted_class_leaves_nothing.
+Print Assumptions C02_revocations_performed_refuted.
+Print Assumptions C02_revocation_stops_at_refused_request.
+Print Assumptions C02_revocations_performed_when_in_use.
